@@ -16,6 +16,11 @@ func pbServCtrlSerialize(ctrl *MsgServerCtrl) *pbx.ServerMsg_Ctrl {
 	if ctrl.Params != nil {
 		if in, ok := ctrl.Params.(map[string]any); ok {
 			params = interfaceMapToByteMap(in)
+		} else if raw, err := json.Marshal(ctrl.Params); err == nil {
+			// Params of any other map type, such as map[string]int or map[string]string.
+			if err = json.Unmarshal(raw, &in); err == nil {
+				params = interfaceMapToByteMap(in)
+			}
 		}
 	}
 
